@@ -192,7 +192,12 @@ func (f *ruleFactory) createExecutePipeline(
 					"an authenticator is defined after some other non authenticator type")
 			}
 
-			authenticator, err := f.hf.CreateAuthenticator(version, id.(string), getConfig(pipelineStep["config"]))
+			mechanismID, conf, err := getIDAndConfig(id, pipelineStep["config"])
+			if err != nil {
+				return nil, nil, nil, err
+			}
+
+			authenticator, err := f.hf.CreateAuthenticator(version, mechanismID, conf)
 			if err != nil {
 				return nil, nil, nil, err
 			}
@@ -248,14 +253,17 @@ func (f *ruleFactory) createOnErrorPipeline(
 	for _, ehStep := range ehConfigs {
 		id, found := ehStep["error_handler"]
 		if found {
-			conf := getConfig(ehStep["config"])
+			mechanismID, conf, err := getIDAndConfig(id, ehStep["config"])
+			if err != nil {
+				return nil, err
+			}
 
 			condition, err := getExecutionCondition(ehStep["if"])
 			if err != nil {
 				return nil, err
 			}
 
-			handler, err := f.hf.CreateErrorHandler(version, id.(string), conf)
+			handler, err := f.hf.CreateErrorHandler(version, mechanismID, conf)
 			if err != nil {
 				return nil, err
 			}
@@ -343,12 +351,35 @@ func createHandler[T subjectHandler](
 		return nil, err
 	}
 
-	handler, err := creteHandler(version, id.(string), getConfig(configMap["config"]))
+	mechanismID, conf, err := getIDAndConfig(id, configMap["config"])
+	if err != nil {
+		return nil, err
+	}
+
+	handler, err := creteHandler(version, mechanismID, conf)
 	if err != nil {
 		return nil, err
 	}
 
 	return &conditionalSubjectHandler{h: handler, c: condition}, nil
+}
+
+// getIDAndConfig checks the types of a mechanism reference and of its (optional) config. Rule sets
+// come from outside (files, endpoints, buckets, kubernetes resources), so wrong types have to be
+// reported as errors.
+func getIDAndConfig(id, conf any) (string, config.MechanismConfig, error) {
+	mechanismID, ok := id.(string)
+	if !ok {
+		return "", nil, errorchain.NewWithMessagef(heimdall.ErrConfiguration,
+			"unexpected type '%T' for mechanism id", id)
+	}
+
+	if _, ok = conf.(map[string]any); conf != nil && !ok {
+		return "", nil, errorchain.NewWithMessagef(heimdall.ErrConfiguration,
+			"unexpected type '%T' for mechanism config", conf)
+	}
+
+	return mechanismID, getConfig(conf), nil
 }
 
 func getConfig(conf any) config.MechanismConfig {
